@@ -1275,6 +1275,32 @@ impl Core {
 			Arc::clone(&write_stall),
 		));
 
+		// If anything below fails (e.g. the WAL replay under a strict recovery
+		// mode), the open is abandoned: the tasks just spawned must not keep the
+		// half-opened store alive, and the directory lock - which they would
+		// otherwise hold on to until the runtime happens to drop them - is released
+		// at once, so that the directory can be opened again in this process.
+		struct AbandonOnFailure {
+			task_manager: Arc<TaskManager>,
+			inner: Arc<CoreInner>,
+			armed: bool,
+		}
+		impl Drop for AbandonOnFailure {
+			fn drop(&mut self) {
+				if self.armed {
+					self.task_manager.abort();
+					if let Ok(mut lockfile) = self.inner.lockfile.lock() {
+						let _ = lockfile.release();
+					}
+				}
+			}
+		}
+		let mut abandon_on_failure = AbandonOnFailure {
+			task_manager: Arc::clone(&task_manager),
+			inner: Arc::clone(&inner),
+			armed: true,
+		};
+
 		let commit_env =
 			Arc::new(LsmCommitEnv::new(Arc::clone(&inner), Arc::clone(&task_manager))?);
 
@@ -1389,6 +1415,7 @@ impl Core {
 
 		log::info!("=== LSM tree initialization complete ===");
 
+		abandon_on_failure.armed = false;
 		Ok(core)
 	}
 
